@@ -139,6 +139,17 @@ class SizeConstraintList(list[SizeConstraint]):
                 )
             except ConstraintObsoleteError:
                 self.remove(constraint)
+            except SizeConstraintExceededError:
+                index = self.index(constraint)
+                # the enclosing regions already counted the whole field, but only the rest of the
+                # violated region was actually consumed
+                skipped = max(0, constraint.size_max - constraint.size_already)
+                for outer in self[:index]:
+                    outer.size_already += skipped - size
+                # the regions opened inside the violated one end with it
+                for inner in self[index + 1 :]:
+                    inner.is_obsolete = True
+                raise
 
     def assert_done(self):
         # if not all constraints are obsolete by now, this is a bug
